@@ -228,7 +228,7 @@ def dirty_process_state(chdir=None):
         if chdir:
             os.chdir(chdir)
         np.set_printoptions(precision=2, threshold=4, edgeitems=1, linewidth=30,
-                            suppress=True)
+                            suppress=True, legacy="1.13")
         pd.set_option("display.precision", 2)
         pd.set_option("display.max_rows", 4)
         pd.set_option("display.max_columns", 2)
@@ -739,10 +739,18 @@ class Ctx:
         v = self.violations.setdefault(key, {"count": 0, "first": []})
         v["count"] += 1
         if len(v["first"]) < self.MAX_PER_KEY:
-            if callable(case):
-                case = case()
-            if callable(detail):
-                detail = detail()
+            # (what describes a violation is computed from what the code under test
+            # returned: it must not be able to hide the violation by failing)
+            try:
+                if callable(case):
+                    case = case()
+            except Exception as e:
+                case = {"case-not-available": repr(e)[:200]}
+            try:
+                if callable(detail):
+                    detail = detail()
+            except Exception as e:
+                detail = {"detail-not-available": repr(e)[:200]}
             v["first"].append({"pred": pred, "case": jsonable(case),
                                "detail": jsonable(detail)})
 
